@@ -44,6 +44,17 @@ CHECKS['C04'] = dict(
          '0.05 dB allowance for the total gain under tilt/ripple.',
     ref='3/C04')
 
+CHECKS['C05'] = dict(
+    technique='runtime monitors: loss-budget checker over recorded fibre crossings; compositional accumulation '
+              'oracle (isolated contributions, sum / root-sum-square, span-order permutations); Raman solver '
+              'limit/convergence/lumped-once/pump-monotonicity checks on the real solver',
+    text='Every fibre, ROADM and amplifier crossing of generated paths and hand-built heterogeneous lines is judged '
+         'against an independent loss budget and the accumulation rule; the Raman solver is driven through its '
+         'settings and compared with its low-power limit and across methods. Exploration.',
+    note='Numerical (Euler) solver judged inside its own first-order error bound; perturbative series judged by '
+         'convergence towards the numerical solution; tolerances and observed maxima are in the evidence.',
+    ref='3/C05')
+
 NOT_APPLICABLE = {
 }
 
